@@ -6,7 +6,9 @@ Sources == {"eu_3857_tile", "eu_32633_tile", "eu_4326_tile", "eu_3857_rot", "eu_
             \* non-square pixels (degree- and metre-based)
             "au_4326_nonsquare", "eu_32633_nonsquare",
             \* fine pixels whose outer edge lies a small fraction (0.5 %) of a COARSE output pixel past a coarse grid line
-            "eu_32633_nearline", "eu_4326_nearline"}
+            "eu_32633_nearline", "eu_4326_nearline",
+            \* rasters registered by (exactly affine) ground control points and then rescaled by 2: the source resolution is what the pixel-to-world mapping says
+            "gcp_eu_32633_zoomed", "gcp_eu_4326_zoomed"}
 \* 4283 (GDA94) and 4258 (ETRS89): geographic CRSs other than 4326 - same units as a degree-based source without being the same CRS
 Targets == {"4326", "3857", "3035", "6933", "32633", "3577", "utm", "utm-n", "utm-s", "4283", "4258"}
 OptSet == UNION { {[res |-> r, shape |-> "none", anchor |-> a, tight |-> t, tol |-> tl] : r \in {"auto", "fit", "explicit"}, a \in {"default", "edge", "center", "xy"}, t \in BOOLEAN, tl \in {<<1, 100>>, <<1, 10>>}},
@@ -29,5 +31,5 @@ Init == c \in {[k |-> "utm-points"]} \cup {[k |-> s] : s \in Sources}
 Next == "k" \in DOMAIN c /\ c' \in (IF c.k = "utm-points" THEN UtmPoints ELSE Cases(c.k)) /\ Emit(c')
 Spec == Init /\ [][Next]_c
 \* design-level: the decision table is consistent for every option set and CRS relation
-ModelOK == "opts" \in DOMAIN c => \A sc \in BOOLEAN, su \in BOOLEAN : (sc => su) => TableOK([opts |-> c.opts, same_crs |-> sc, same_units |-> su])
+ModelOK == "opts" \in DOMAIN c => \A sc \in BOOLEAN, su \in BOOLEAN : (sc => su) => TableOK([source |-> c.source, opts |-> c.opts, same_crs |-> sc, same_units |-> su])
 =============================================================================
